@@ -112,7 +112,11 @@ impl Src {
         }
     }
     pub fn tok(&self) -> Tok {
-        Tok { pre: self.text(), num: None, post: String::new(), class: if self.base == 10 { Class::Number } else { Class::Based }, space: 1 }
+        if self.base == 10 {
+            // a decimal literal follows the separator convention it is rendered under
+            return Tok::num(crate::lines::NumLit { v: self.value(), sign: 0, group: false });
+        }
+        Tok { pre: self.text(), num: None, post: String::new(), class: Class::Based, space: 1 }
     }
 }
 
@@ -300,7 +304,7 @@ pub fn src_strategy(allow_frac: bool) -> impl Strategy<Value = Src> {
     (n_strategy(), prop::sample::select(vec![10u8, 16, 8, 2]), frac, any::<bool>(), 0u8..3).prop_map(|(n, base, frac, prefix_upper, digit_case)| {
         let frac = if base == 10 { frac } else { None };
         // a fractional decimal stays below 2^52 so that the fraction is representable
-        let n = if frac.is_some() { n % (1u64 << 40) } else { n };
+        let n = if frac.is_some() { n % (1u64 << 36) } else { n };
         Src { n, base, frac, prefix_upper, digit_case }
     })
 }
